@@ -130,8 +130,9 @@ def r_cumulative(ctx: Ctx, model):
         vol, pr = env["volume_adsorbed"], env["relative_pressure"]
         seen["used"] = (list(vol.items), list(pr.items))
         m = len(vol.items) - 1
+        R_ = lambda nm: sp.Symbol(nm, real=True)       # a method may return negative volumes (thinning larger than the step)
         return {"__used__": list(vol.items), "pore_widths": Vec([S(f"w{i}") for i in range(m)]), "pore_areas": Vec([S(f"a{i}") for i in range(m)]),
-                "pore_volumes": Vec([S(f"dv{i}") for i in range(m)]), "pore_distribution": Vec([S(f"d{i}") for i in range(m)])}
+                "pore_volumes": Vec([R_(f"dv{i}") for i in range(m)]), "pore_distribution": Vec([R_(f"d{i}") for i in range(m)])}
     for nm in ("psd_pygapsdh", "psd_bjh", "psd_dollimore_heal"):
         I.overrides[f"{PM}.{nm}"] = fake_method
     I.overrides["pygaps.utilities.pygaps_utilities.get_iso_loading_and_pressure_ordered"] = lambda I, fi_, env, n: (Vec(list(p)), Vec(list(V)))
@@ -164,7 +165,14 @@ def r_cumulative(ctx: Ctx, model):
                                                  f"receives the points {[str(x) for x in used_v]} instead of the window {[str(x) for x in window]}: widths are no "
                                                  "longer reported at every measured pressure inside the limits"))
             m = len(used_v) - 1
-            dv = [S(f"dv{i}") for i in range(m)]
+            dv = [sp.Symbol(f"dv{i}", real=True) for i in range(m)]
+            # post-processing passes the method's volumes, distribution and widths on unchanged (they are mutually consistent only together)
+            same = all(isinstance(res.get(kk), Vec) and [str(x) for x in res[kk].items] == [f"{pre}{i}" for i in range(m)]
+                       for kk, pre in (("pore_volumes", "dv"), ("pore_distribution", "d"), ("pore_widths", "w")))
+            ctx.ob(same, Finding("C16.P-dist", fi.where, f"psd_mesoporous|{psd_model}|results-altered",
+                                 f"psd_mesoporous alters the method's results after the calculation (pore_volumes {res.get('pore_volumes')!r}, "
+                                 f"pore_distribution {res.get('pore_distribution')!r}): distribution x width increment no longer equals the reported volumes"),
+                   nontrivial_key=(psd_model, "passthrough"))
             want = [sum(dv[:k + 1]) - sum(dv) + used_v[-1] for k in range(m)]
             ok = len(cum) == m and all(zero(a - b) for a, b in zip(cum, want))
             ctx.ob(ok, Finding("C16.P-cumul", fi.where, f"psd_mesoporous|{psd_model}|cumulative-anchor",
@@ -175,6 +183,25 @@ def r_cumulative(ctx: Ctx, model):
             lim = res.get("limits")
             ctx.ob(isinstance(lim, tuple) and len(lim) == 2, Finding("C16.P-cumul", fi.where, "psd_mesoporous|limits-missing", "result lacks the (minimum, maximum) limits"))
     ctx.floor("psd_mesoporous window paths", npaths, 40)
+    # an explicitly requested meniscus geometry is the one the Kelvin model gets (the inferred one is only a default)
+    cap = {}
+
+    def kel(I, fi_, env, n, cap=cap):
+        cap["meniscus"] = (env.get("model_args") or {}).get("meniscus_geometry", env.get("meniscus_geometry"))
+        return Obj(kind="KModel")
+    I.overrides[f"{MK}.get_kelvin_model"] = kel
+    for explicit, branch, geom in (("hemispherical", "ads", "cylinder"), ("cylindrical", "des", "cylinder"), (None, "ads", "cylinder"), (None, "des", "slit")):
+        cap.clear()
+        kw = {"psd_model": "pygaps-DH", "pore_geometry": geom, "branch": branch, "p_limits": (None, None)}
+        if explicit:
+            kw["meniscus_geometry"] = explicit
+        outs = [o for o in I.explore(lambda I: I.call_func(fi, [iso()], dict(kw), None)) if o.kind == "ok"]
+        want = explicit or MENISCUS[(branch, geom)]
+        ctx.ob(bool(outs) and cap.get("meniscus") == want,
+               Finding("C16.P-kelvin", fi.where, f"psd_mesoporous|meniscus|explicit={explicit}|{branch}|{geom}",
+                       f"psd_mesoporous(branch={branch}, pore_geometry={geom}, meniscus_geometry={explicit}) builds the Kelvin model with "
+                       f"meniscus {cap.get('meniscus')!r}; required {want!r}" + (" (the caller's explicit choice)" if explicit else " (inferred default)")),
+               nontrivial_key=("meniscus", explicit, branch, geom))
 
 
 def r_kelvin(ctx: Ctx, model):
@@ -209,12 +236,18 @@ def r_kelvin(ctx: Ctx, model):
                Finding("C16.P-kelvin", gm.where, f"meniscus|{bad}|not-refused", f"get_meniscus_geometry{bad} must raise ParameterError"))
 
 
+def r_reader(ctx: Ctx, model):
+    from .C03 import r_order
+    r_order(ctx, model, prop="C16")      # widths are reported at the measured *relative* pressures: the shared reader must convert
+
+
 def run(ctx: Ctx):
     model = load(ctx.root)
     ctx.assume("sympy normalisation is sound; numpy.diff / cumsum / slicing have their documented elementwise meaning")
     r_methods(ctx, model)
     r_cumulative(ctx, model)
     r_kelvin(ctx, model)
+    r_reader(ctx, model)
     from ..sites import no_memoisation
     ctx.rule("P-fresh: no caching decorator on any function of pygaps.characterisation.")
     no_memoisation(ctx, load(ctx.root), "C16", "P-fresh", ('pygaps.characterisation.',),
